@@ -267,3 +267,255 @@ def redirect_member_call(ftoks, body_lo, body_hi, method, wrapper, log, fn):
     if n:
         log.fire('N7', fn, n)
     return out
+
+
+# ---------------------------------------------------------------- statement-level rewrites (N1, N2, N4, N5, N6, N11)
+
+def _mk(kind, text):
+    return Tok(kind, text, -1)
+
+
+def _retok(text):
+    from cpptok import tokenize as _t
+    return [Tok(t.kind, t.text, -1) for t in _t(text)]
+
+
+def find_stmt_end(toks, k):
+    """index of the ';' ending the statement that starts at k (brackets matched)"""
+    j = k
+    while j < len(toks):
+        t = toks[j]
+        if t.kind == 'op' and t.text in ('(', '{', '['):
+            j = match_close(toks, j)
+        elif t.kind == 'op' and t.text == ';':
+            return j
+        j += 1
+    raise ExtractError('statement end not found')
+
+
+def rewrite_auto(ftoks, lo, types, log, fn):
+    """N6: `auto [&] v = e;` / `auto const &v` -> declared type.  types: {varname: 'T'} (every entry must fire once)"""
+    out = list(ftoks)
+    fired = set()
+    k = lo
+    while k < len(out):
+        t = out[k]
+        if t.kind == 'id' and t.text == 'auto':
+            j = next_code(out, k)
+            quals = []
+            while out[j].text in ('const', '&', '&&', '*'):
+                quals.append(out[j].text)
+                j = next_code(out, j)
+            var = out[j].text
+            nx = next_code(out, j)
+            if out[nx].text == '=' and var in types:
+                out[k] = _mk('id', types[var])
+                fired.add(var)
+                log.fire('N6', fn)
+        k += 1
+    missing = set(types) - fired
+    if missing:
+        raise ExtractError(f'N6 in {fn}: no `auto {sorted(missing)} = ...` found')
+    return out
+
+
+def rewrite_range_for(ftoks, lo, specs, log, fn, unit_globals=None):
+    """N1: `for (D v : E) BODY` ->
+         { CT *__rng = &(E); IT __it = __rng->begin(); IT __end = __rng->end();
+           for (; __it != __end; ++__it) { ED v = *__it; BODY } }
+    which is the desugaring the C++ standard prescribes ([stmt.ranged]).  specs: list of dicts
+    {var, container_type, iter_type, elem_decl, [tag]} matched in source order by `var`.
+    With unit_globals (a list) the three hidden variables are emitted as unit-level globals named
+    __rng_<tag>, __it_<tag>, __end_<tag> (rule N10: locals of functions with explicit parameters cannot be
+    named in loop contracts)."""
+    out = list(ftoks)
+    todo = list(specs)
+    k = lo
+    while k < len(out) and todo:
+        t = out[k]
+        if t.kind == 'id' and t.text == 'for':
+            lp = next_code(out, k)
+            rp = match_close(out, lp)
+            # find ':' at depth 0 inside the parens (not '::')
+            colon = None
+            depth = 0
+            for j in range(lp + 1, rp):
+                x = out[j]
+                if x.kind == 'op' and x.text in ('(', '[', '{'):
+                    depth += 1
+                elif x.kind == 'op' and x.text in (')', ']', '}'):
+                    depth -= 1
+                elif x.kind == 'op' and x.text == ':' and depth == 0:
+                    colon = j
+                    break
+                elif x.kind == 'op' and x.text == ';':
+                    break
+            if colon is not None:
+                decl = [x for x in out[lp + 1:colon] if is_code(x)]
+                var = decl[-1].text
+                sp = todo[0]
+                if sp['var'] != var:
+                    raise ExtractError(f'N1 in {fn}: next range-for declares `{var}`, unit expects `{sp["var"]}`')
+                todo.pop(0)
+                expr = untok(out[colon + 1:rp]).strip()
+                b = next_code(out, rp)
+                if out[b].text == '{':
+                    be = match_close(out, b)
+                    body = out[b + 1:be]
+                    end = be
+                else:
+                    se = find_stmt_end(out, b)
+                    body = out[b:se + 1]
+                    end = se
+                tag = sp.get('tag')
+                ct, it, ed = sp['container_type'], sp['iter_type'], sp['elem_decl']
+                if unit_globals is not None and tag:
+                    rng, itv, endv = f'__rng_{tag}', f'__it_{tag}', f'__end_{tag}'
+                    unit_globals.append(f'{ct} *{rng}; {it} {itv}; {it} {endv};')
+                    head = f'{{ {rng} = &({expr}); {itv} = {rng}->begin(); {endv} = {rng}->end(); '
+                else:
+                    rng, itv, endv = '__rng', '__it', '__end'
+                    head = f'{{ {ct} *{rng} = &({expr}); {it} {itv} = {rng}->begin(); {it} {endv} = {rng}->end(); '
+                head += f'for (; {itv} != {endv}; ++{itv}) {{ {ed} = *{itv}; '
+                new = _retok(head) + body + _retok(' } }')
+                out[k:end + 1] = new
+                log.fire('N1', fn)
+                # continue scanning inside the rewritten text (nested range-for in the body)
+                k += 1
+                continue
+        k += 1
+    if todo:
+        raise ExtractError(f'N1 in {fn}: range-for over `{todo[0]["var"]}` not found')
+    return out
+
+
+def rewrite_aggregate_decl(ftoks, lo, specs, log, fn):
+    """N2: `T x = {e1, e2};` or `T x = {.a = e1, .b = e2};` -> `T x; x.f1 = e1; x.f2 = e2;`
+    specs: list of {type, var, fields:[f1,f2,...]} (positional fields from the struct declaration)"""
+    out = list(ftoks)
+    for sp in specs:
+        done = False
+        k = lo
+        while k < len(out):
+            if out[k].kind == 'id' and out[k].text == sp['var']:
+                eq = next_code(out, k)
+                br = next_code(out, eq)
+                if out[eq].text == '=' and out[br].text == '{':
+                    # type tokens precede var up to previous ';' '{' '}'
+                    s = k
+                    while True:
+                        p = prev_code(out, s)
+                        if out[p].text in (';', '{', '}'):
+                            break
+                        s = p
+                    be = match_close(out, br)
+                    semi = next_code(out, be)
+                    if out[semi].text != ';':
+                        k += 1
+                        continue
+                    items = [[]]
+                    depth = 0
+                    for x in out[br + 1:be]:
+                        if x.kind == 'op' and x.text in ('(', '[', '{'):
+                            depth += 1
+                        elif x.kind == 'op' and x.text in (')', ']', '}'):
+                            depth -= 1
+                        if x.kind == 'op' and x.text == ',' and depth == 0:
+                            items.append([])
+                        else:
+                            items[-1].append(x)
+                    items = [it for it in items if any(is_code(x) for x in it)]
+                    tyt = untok(out[s:k]).strip()
+                    stmts = f'{tyt} {sp["var"]}; '
+                    for idx, it in enumerate(items):
+                        ctoks = [x for x in it if is_code(x)]
+                        if ctoks[0].text == '.':
+                            fld = ctoks[1].text
+                            e = untok(it).split('=', 1)[1].strip()
+                        else:
+                            fld = sp['fields'][idx]
+                            e = untok(it).strip()
+                        stmts += f'{sp["var"]}.{fld} = {e}; '
+                    out[s:semi + 1] = _retok(stmts)
+                    log.fire('N2', fn)
+                    done = True
+                    break
+            k += 1
+        if not done:
+            raise ExtractError(f'N2 in {fn}: `{sp["type"]} {sp["var"]} = {{...}}` not found')
+    return out
+
+
+def rewrite_string_literals(ftoks, lo, log, fn):
+    """N5: "lit" -> std::string("lit") (CBMC resolves `"lit" + std::string` through a free operator+ wrongly)"""
+    out = []
+    for i, t in enumerate(ftoks):
+        if i >= lo and t.kind == 'str':
+            p = prev_code(ftoks, i)
+            # already wrapped: std::string("...")
+            if p >= 0 and ftoks[p].text == '(' and ftoks[prev_code(ftoks, p)].text == 'string':
+                out.append(t)
+                continue
+            out += [_mk('id', 'std'), _mk('op', '::'), _mk('id', 'string'), _mk('op', '('), t, _mk('op', ')')]
+            log.fire('N5', fn)
+        else:
+            out.append(t)
+    return out
+
+
+def rewrite_temp_aggregate(ftoks, lo, specs, log, fn, helpers):
+    """N11: aggregate temporary `T{e1, e2}` -> `__mk_T(e1, e2)`; helper definitions are appended to `helpers`.
+    specs: list of {type, fields:[(ftype, fname), ...]}"""
+    out = list(ftoks)
+    for sp in specs:
+        k = lo
+        n = 0
+        while k < len(out):
+            if out[k].kind == 'id' and out[k].text == sp['type']:
+                b = next_code(out, k)
+                if b < len(out) and out[b].text == '{':
+                    p = prev_code(out, k)
+                    if out[p].text in ('struct', 'class'):
+                        k += 1
+                        continue
+                    e = match_close(out, b)
+                    out[b] = _mk('op', '(')
+                    out[e] = _mk('op', ')')
+                    out[k] = _mk('id', '__mk_' + sp['type'])
+                    n += 1
+            k += 1
+        if n == 0:
+            raise ExtractError(f'N11 in {fn}: no `{sp["type"]}{{...}}` temporary found')
+        log.fire('N11', fn, n)
+        params = ', '.join(f'{ft} a{i}' for i, (ft, fnm) in enumerate(sp['fields']))
+        body = ' '.join(f't.{fnm} = a{i};' for i, (ft, fnm) in enumerate(sp['fields']))
+        h = f'static {sp["type"]} __mk_{sp["type"]}({params}) {{ {sp["type"]} t; {body} return t; }}'
+        if h not in helpers:
+            helpers.append(h)
+    return out
+
+
+def rewrite_clear_assign(ftoks, lo, members, log, fn):
+    """N4: `X = {};` on a container member -> `X.clear();`  members: list of member-expression token texts"""
+    out = list(ftoks)
+    for mem in members:
+        pat = [t.text for t in _retok(mem) if is_code(t)]
+        k = lo
+        done = False
+        while k < len(out):
+            if out[k].text == pat[0]:
+                last = seq_at(out, k, pat)
+                if last >= 0:
+                    eq = next_code(out, last)
+                    b = next_code(out, eq)
+                    if out[eq].text == '=' and out[b].text == '{':
+                        e = match_close(out, b)
+                        if not any(is_code(x) for x in out[b + 1:e]):
+                            out[eq:e + 1] = _retok('.clear()')
+                            log.fire('N4', fn)
+                            done = True
+                            break
+            k += 1
+        if not done:
+            raise ExtractError(f'N4 in {fn}: `{mem} = {{}}` not found')
+    return out
